@@ -22,6 +22,14 @@ for ID in $IDS; do
   echo "$OUT" | grep -E "VIOLATION|KNOWN-FINDING|INCONCLUSIVE|BUILD FAILED|cases" | head -8
   echo "== seeded=$NAME check=$ID exit=$CODE $( [ $CODE = 1 ] && echo CAUGHT || echo MISSED )"
   [ $CODE = 1 ] || RC=1
+  python3 - "$D" "$ID" "${TIER:-quick}" "$CODE" "$(git -C /verif rev-parse --short HEAD)" "$(echo "$OUT" | grep -c VIOLATION)" <<'PY'
+import json,sys,os
+d,cid,tier,code,commit,nviol=sys.argv[1:7]
+p=d+'/result.json'
+r=json.load(open(p)) if os.path.exists(p) else {}
+r[cid+':'+tier]={"exit":int(code),"caught":code=="1","violation_lines":int(nviol),"verif_commit":commit}
+json.dump(r,open(p,'w'),indent=1)
+PY
 done
 git -C /repo worktree remove --force $WT
 exit $RC
